@@ -98,6 +98,8 @@ class PyMachine:
              "cycles": int(emu.cycle_count), "instrs": int(emu.instruction_count),
              "pending": bool(emu._irq_pending), "source": emu._irq_source.name if emu._irq_source else None,
              "opcode": rb(pc) & 0xFF, "fifo": list(emu.keyboard.fifo_snapshot())}
+        # the operation byte behind an optional PRE byte (a prefixed RETI/HALT/IR is still that instruction)
+        o["op_eff"] = (rb(pc + 1) & 0xFF) if (0x21 <= o["opcode"] <= 0x27 or 0x30 <= o["opcode"] <= 0x37) else o["opcode"]
         if self.obs_lcd:
             import zlib
             snap = emu.lcd.get_snapshot()
